@@ -103,7 +103,7 @@ TRANSPORTS = {
     "sdo": (["none"], 255, 255, None),
     "cw": (["CW"], 255, 255, None),
     "sw": (["SW"], 255, 255, None),
-    "ev": (["A", "B", "C", "D"], 255, 255, None),
+    "ev": (["A", "B", "C", "D", "E", "F"], 255, 255, None),
     "cyc": (["A", "B", "C", "D"], 1, 255, "lockstep"),
     "cycr": (["A", "B", "C", "D"], 1, 1, "lockstep"),
     "free": (["A", "B", "C", "D"], 255, 255, "free"),
@@ -167,7 +167,7 @@ class Rig:
             node.TIMEOUT_CHECK_TPDO = 0.001
             node.TIMEOUT_SWITCH_OP_MODE = 0.05
         node.nmt.state = "OPERATIONAL"
-        if case.get("setup", "read") == "read":
+        if case.get("setup", "read") == "read" or layout in ("E", "F"):
             node.setup_402_state_machine(read_pdos=True)
         else:
             for kind, maps, bases, tt in (("rpdo", node.rpdo, R.RPDO_BASE, rpdo_tt),
